@@ -357,7 +357,7 @@ def _expected_after_faults(twin_sites: List[str], injected: List[Tuple[int, str]
 
 def action_fault(f0: bool, f1: bool, f2: bool, f3: bool, f4: bool, f5: bool, f6: bool, f7: bool, f8: bool, f9: bool,
                  f10: bool, f11: bool, f12: bool, f13: bool, f14: bool, f15: bool, f16: bool, f17: bool, f18: bool,
-                 f19: bool, f20: bool, f21: bool, f22: bool, f23: bool, fk: int) -> bool:
+                 f19: bool, f20: bool, f21: bool, f22: bool, f23: bool, fk: int, hb: bool = False) -> bool:
     """
     pre: gate('action_fault', f0=f0)
     post: _
@@ -368,11 +368,21 @@ def action_fault(f0: bool, f1: bool, f2: bool, f3: bool, f4: bool, f5: bool, f6:
     CTL["broken"] = None
     tw_sites = Sites(None, 0)
     CTL["site"] = tw_sites
-    twin = _run("FT", eng, evs)
+
+    # two cooperating faults: the plugin that is told about a failing action may itself raise in on_action_error
+    class Grumpy:
+        def on_action_error(self, interp: Any, action_def: Any, exc: Any) -> None:
+            if hb:
+                raise Fault("on_action_error hook fault")
+
+    def attach(it: Any) -> None:
+        it.use(Grumpy())
+
+    twin = _run("FT", eng, evs, observers=attach)
     sites = Sites(bits, P["W"])
     sites.exc_sel = fk
     CTL["site"] = sites
-    got = _run("FT", eng, evs)
+    got = _run("FT", eng, evs, observers=attach)
     # per-step comparison
     ok = True
     start_sites = 0
@@ -427,6 +437,23 @@ def observer_fault(kind: int, at: int) -> bool:
                 return hook
             raise AttributeError(name)
 
+    seen: Dict[str, List[Any]] = {"bad": [], "good": []}
+
+    def healthy(it: Any, key: str) -> None:
+        """A well-behaved observer of the same kind, registered AFTER the faulty one: it must see everything."""
+        if k == 0:
+            class Rec:
+                def __getattr__(self, name: str) -> Any:
+                    if name.startswith("on_"):
+                        return lambda *a, **kw: seen[key].append(name)
+                    raise AttributeError(name)
+            it.use(Rec())
+        elif k == 1:
+            it.subscribe(lambda i: seen[key].append(sorted(i.current_state_ids)))
+        else:
+            it.on("NOTE", lambda e: seen[key].append(("NOTE", getattr(e, "type", None))))
+            it.on("*", lambda e: seen[key].append(("*", getattr(e, "type", None))))
+
     def attach_bad(it: Any) -> None:
         if k == 0:
             it.use(Noisy())
@@ -435,6 +462,7 @@ def observer_fault(kind: int, at: int) -> bool:
         else:
             it.on("NOTE", lambda _e: maybe())
             it.on("*", lambda _e: maybe())
+        healthy(it, "bad")
 
     def attach_good(it: Any) -> None:
         # same observers, never raising: identical hook traffic
@@ -450,6 +478,7 @@ def observer_fault(kind: int, at: int) -> bool:
         else:
             it.on("NOTE", lambda _e: None)
             it.on("*", lambda _e: None)
+        healthy(it, "good")
 
     twin = _run("FT", eng, evs, observers=attach_good)
     got = _run("FT", eng, evs, observers=attach_bad)
@@ -462,6 +491,10 @@ def observer_fault(kind: int, at: int) -> bool:
                 break
         if not ok:
             break
+    if ok and seen["bad"] != seen["good"]:
+        _note(f"observer kind {k} raising at call {at}: a healthy observer registered after the faulty one saw {len(seen['bad'])} notifications, "
+              f"{len(seen['good'])} in the fault-free run: {seen['bad'][:6]} vs {seen['good'][:6]}")
+        ok = False
     return verdict(ok, nontrivial=counter["hit"])
 
 
